@@ -280,6 +280,10 @@ pub fn iter_forward(
         }
         it.next();
     }
+    // the cursor stopped: exhausted, or failed (like LevelDB's status(), the error is asked for)
+    if let Some(e) = it.take_error() {
+        return Err(e.to_string());
+    }
     Ok(out)
 }
 
@@ -297,6 +301,9 @@ pub fn iter_backward(
             return Err("scan does not terminate".into());
         }
         it.prev();
+    }
+    if let Some(e) = it.take_error() {
+        return Err(e.to_string());
     }
     Ok(out)
 }
